@@ -4,6 +4,7 @@ mod driver;
 mod evidence;
 mod gen;
 mod matrix;
+mod mirilane;
 mod mon;
 mod monitors;
 mod ops;
@@ -18,6 +19,10 @@ mod tokenworld;
 fn main() {
     chain::install_panic_hook();
     let args: Vec<String> = std::env::args().collect();
+    if args.len() >= 2 && args[1] == "miri" {
+        let seed = args.get(2).and_then(|x| x.parse().ok()).unwrap_or(1);
+        std::process::exit(mirilane::run(seed));
+    }
     let code = props::run_cli(&args[1..]);
     std::process::exit(code);
 }
